@@ -632,11 +632,11 @@ func c09Loop(c *Ctx) {
 			}
 			returnsSeen["result"] = true
 			msg := sel.Res[0]
-			if p.Exit != ExitReturn || p.Rets[0] != ev.LoadField(p.State, msg, "result") {
+			if p.Exit != ExitReturn || p.Rets[0] != ev.ValueField(p.State, msg, "result") {
 				fail(p, sel, "the value returned must be the result carried by the received message")
 				continue
 			}
-			widx := ev.LoadField(p.State, msg, "index")
+			widx := ev.ValueField(p.State, msg, "index")
 			for i, x := range attempts {
 				isWinner := p.State.Facts.Truth(ts, ts.Cmp("==", ts.LinConst(int64(i), intT), widx))
 				cancels := eventsWhere(p, func(e *Event) bool { return isCall(e, "Cancel") && e.Recv == x && e.Idx > sel.Idx })
@@ -777,7 +777,7 @@ func c09Attempt(c *Ctx, ev *Evaluator, g *Event, innerFn, maxHedges, resultChan 
 			}
 			sawSend = true
 			m := send.Val
-			if m.Op != "alloc" || ev.LoadField(q.State, m, "result") != in.Res[0] || ev.LoadField(q.State, m, "index") != idx {
+			if (m.Op != "alloc" && m.Op != "struct") || ev.ValueField(q.State, m, "result") != in.Res[0] || ev.ValueField(q.State, m, "index") != idx {
 				bad("the message must carry this attempt's own result and index")
 			}
 		case triF:
